@@ -13,7 +13,7 @@ import (
 
 func init() {
 	Register(&Rule{ID: "R-MTX-1", Props: []string{"C19", "C13", "C09"}, Floor: 20,
-		Doc: "every Lock is paired: for each call of (*sync.Mutex).Lock / (*sync.RWMutex).Lock / RLock in csvq, every path from the call to an exit of the function (return or panic, error exits included) passes the matching Unlock / RUnlock of the same mutex, or a deferred one has been registered before the exit — a mutex left locked on one error return makes the next statement of a session, or a sibling worker goroutine, wait forever (the process then ignores SIGTERM too, because the signal only cancels the context)",
+		Doc:      "every Lock is paired: for each call of (*sync.Mutex).Lock / (*sync.RWMutex).Lock / RLock in csvq, every path from the call to an exit of the function (return or panic, error exits included) passes the matching Unlock / RUnlock of the same mutex, or a deferred one has been registered before the exit — a mutex left locked on one error return makes the next statement of a session, or a sibling worker goroutine, wait forever (the process then ignores SIGTERM too, because the signal only cancels the context)",
 		Controls: []string{"CtlLockLeakedOnErrorReturn"},
 		Run:      ruleMtx1})
 }
